@@ -112,17 +112,15 @@ func coerceInt(value interface{}) interface{} {
 		}
 		return coerceInt(*value)
 	case float32:
-		if value < float32(math.MinInt32) || value > float32(math.MaxInt32) {
-			return nil
-		}
-		return int(value)
+		// compared as float64: float32(math.MaxInt32) rounds up to 2^31
+		return coerceInt(float64(value))
 	case *float32:
 		if value == nil {
 			return nil
 		}
 		return coerceInt(*value)
 	case float64:
-		if value < float64(math.MinInt32) || value > float64(math.MaxInt32) {
+		if math.IsNaN(value) || value < float64(math.MinInt32) || value > float64(math.MaxInt32) {
 			return nil
 		}
 		return int(value)
@@ -253,6 +251,9 @@ func coerceFloat(value interface{}) interface{} {
 		}
 		return coerceFloat(*value)
 	case float32:
+		if math.IsInf(float64(value), 0) {
+			return nil
+		}
 		return value
 	case *float32:
 		if value == nil {
@@ -260,6 +261,10 @@ func coerceFloat(value interface{}) interface{} {
 		}
 		return coerceFloat(*value)
 	case float64:
+		// an infinity is not a Float (and cannot be serialised)
+		if math.IsInf(value, 0) {
+			return nil
+		}
 		return value
 	case *float64:
 		if value == nil {
@@ -271,7 +276,7 @@ func coerceFloat(value interface{}) interface{} {
 		if err != nil {
 			return nil
 		}
-		return val
+		return coerceFloat(val)
 	case *string:
 		if value == nil {
 			return nil
